@@ -43,6 +43,8 @@ var defs = map[string]checkDef{
 	"C08": {Engine: "B", Pkg: "./engb", MinEvals: 100},
 	"C09": {Engine: "B", Pkg: "./engb", MinEvals: 100},
 	"C10": {Engine: "B", Pkg: "./engb", MinEvals: 100},
+	"C20": {Engine: "B", Pkg: "./engb", MinEvals: 100},
+	"C11": {Engine: "B", Pkg: "./engb", MinEvals: 100},
 	"C12": {Engine: "A", Pkg: "./enga", MinEvals: 30000},
 	"C14": {Engine: "A", Pkg: "./enga", MinEvals: 1000},
 	"C15": {Engine: "A", Pkg: "./enga", MinEvals: 1000},
